@@ -60,7 +60,7 @@ def _gen_ios(cfg, pool, conns, depth, p_clock):
     else:
         node["pins"] = draw(width)
     if width == 1 and d == "i" and cfg.random() < p_clock:
-        node["clock_mhz"] = cfg.choice([12, 25, 48, 50, 100, 133])
+        node["clock_mhz"] = cfg.choice([12, 25, 48, 50, 100, 133, 0.032768, 1.8432, 25.175, 33.333333, 0.001, 7.3728])
     return node
 
 
@@ -86,7 +86,7 @@ def gen_case(seed, tier):
                 pins.append(str(cfg.choice(avail)) if avail else "-")
             else:
                 pins.append(cfg.choice(pool))
-        conns.append({"name": "j", "number": ci, "pins": pins,
+        conns.append({"name": "j", "number": ci, "pins": pins, "form": cfg.choice(["str", "str", "dict"]),
                       "conn": [parent["name"], parent["number"]] if parent is not None else None})
     resources = []
     nres = cfg.randint(2, 8)
@@ -148,8 +148,13 @@ def make_platform(config):
         return args
 
     res = [Resource(r["name"], r["number"], *mk(r, True)) for r in config["resources"]]
-    con = [Connector(c["name"], c["number"], " ".join(c["pins"]), conn=tuple(c["conn"]) if c["conn"] else None)
-           for c in config["connectors"]]
+    con = []
+    for c in config["connectors"]:
+        if c.get("form") == "dict":
+            io_ = {str(k): v for k, v in enumerate(c["pins"], start=1) if v != "-"}
+        else:
+            io_ = " ".join(c["pins"])
+        con.append(Connector(c["name"], c["number"], io_, conn=tuple(c["conn"]) if c["conn"] else None))
     fam = config["family"]
     if fam == "ice40":
         class Plat(vendor.LatticeICE40Platform):
